@@ -37,7 +37,7 @@ HidFields == << "addr_src_low", "addr_src_high", "addr_dst_low", "addr_dst_high"
 HidIds == (0..3) \cup { 16 + 32 * c + f : c \in 0..7, f \in 0..17 } \cup { 300, 301 } \cup (400..447)
 HidKey == [id \in HidIds |->
              CASE id <= 3   -> TK(id \div 2, IF id % 2 = 0 THEN "cnt_hi" ELSE "cnt_lo")
-               [] id <= 271 -> <<"dma", (id - 16) \div 32, HidFields[(id - 16) % 32 + 1]>>
+               [] id <= 271 -> <<"dma", (id - 16) \div 32, HidFields[((id - 16) % 32) + 1]>>
                [] id <= 301 -> K("bt", id - 300, "qlen")
                [] id <= 415 -> K("icu", id - 400, "vlow")
                [] id <= 431 -> K("icu", id - 416, "vhigh")
@@ -104,6 +104,9 @@ THGetSem  == IsEvent("HGetSem")  /\ Rec.r = regs[FD("sem")] /\ Observed(regs, \h
 TraceInit == regs = Fresh /\ ln = 1 /\ frame = TRUE
 TraceNext == TNew \/ TReset \/ TW \/ TR \/ THSend \/ THRecv \/ THSetSem \/ THClrSem \/ THMaskSem \/ THGetSem
 TraceSpec == TraceInit /\ [][TraceNext]_tvars
+
+\* one successor per line: the line number identifies the state (saves fingerprinting the register file)
+TraceView == <<ln, frame>>
 
 \* C12 on the observed execution: every change an access made is one the property allows
 ObservedFrame == frame
